@@ -510,7 +510,7 @@ func (r *kvRun) doBatch(rows []kvRow, why string, exc []int) bool {
 		cellsBefore[i] = kvLiveCells(s.c)
 	}
 	r.be.ctxs = r.be.ctxs[:0]
-	ctx := r.be.NewContext().(*kvCtx)
+	ctx := r.be.newContext(1 << 20) // the model's own graph is not limited by the small budget given to the cache
 	defer ctx.Close()
 	nctx := r.be.newCtx
 	maskFailed := false
@@ -1235,7 +1235,7 @@ func (r *kvRun) opReserve() {
 	}
 	r.mix(6)
 	r.note("reserve pass (%d rows)", n)
-	ctx := r.be.NewContext().(*kvCtx)
+	ctx := r.be.newContext(1 << 20) // the model's own graph is not limited by the small budget given to the cache
 	defer ctx.Close()
 	var err error
 	r.guard("StartForward(reserve)", func() {
